@@ -98,6 +98,15 @@ func (b *Base) Extend(x Type) error {
 	return nil
 }
 
+// unextend returns a function that takes back what calls to Extend() made
+// after this call add. The types of a root are shared with the copy of the
+// tables made for a load so the extensions of a load that fails are removed
+// with it.
+func (b *Base) unextend() func() {
+	nd := len(b.Dirs)
+	return func() { b.Dirs = b.Dirs[:nd] }
+}
+
 // Validate a type.
 func (b *Base) Validate(root *Root) (errs []error) {
 	return
